@@ -397,18 +397,21 @@ Proof.
         rewrite X. destruct F as (_ & _ & F3 & _). rewrite F3.
         unfold w2. destruct w; cbn in *. rewrite Halt0. cbn. exists (out_end rc).
         split; [apply chain_single; auto|]. unfold out_end in *. lia.
-    + (* the whole run goes on the line *)
+    + (* the whole run goes on the line, its advance taken from the glyphs *)
       apply Z.ltb_ge in Ec. cbn [bind fst snd] in H.
-      assert (Hchain : chain (w_start w) (s_alt (w_sc w) ++ [r]) (out_end r)).
-      { destruct (s_alt (w_sc w)) eqn:A.
-        - cbn. apply chain_single. specialize (He1 eq_refl). lia.
+      set (r' := recompute_advance (w_st w) r) in *.
+      assert (Er : o_off r' = o_off r /\ o_cnt r' = o_cnt r /\ out_end r' = out_end r) by (unfold r', recompute_advance, set_adv, out_end; cbn; auto).
+      destruct Er as (Er1 & Er2 & Er3).
+      assert (Hchain : chain (w_start w) (s_alt (w_sc w) ++ [r']) (out_end r)).
+      { rewrite <- Er3. destruct (s_alt (w_sc w)) eqn:A.
+        - cbn. apply chain_single. rewrite Er1. specialize (He1 eq_refl). lia.
         - assert (e = m) by (apply He2; congruence). subst e.
-          eapply chain_app; [exact Halt|]. apply chain_single; auto. }
-      set (w2 := iter_advance (cand_append w r)) in *.
+          eapply chain_app; [exact Halt|]. apply chain_single; rewrite Er1; auto. }
+      set (w2 := iter_advance (cand_append w r')) in *.
       assert (P1 : runs_ok (w_runs w2) n) by (destruct w; exact HR).
       assert (P2 : pair_ok (w_runs w2) n (w_start w2) (s_alt (w_sc w2)) (w_idx w2)).
       { destruct w; cbn in *. split.
-        -- apply all_pos_app; auto. constructor; auto.
+        -- apply all_pos_app; auto. constructor; [try rewrite Er2; cbn; auto|constructor].
         -- exists (pre ++ [r]), post', (out_end r), (out_end r). repeat split; auto.
            intros Hnil. destruct w_sc; cbn in *. destruct s_alt; discriminate. }
       assert (P3 : mp_ok w2) by (destruct w; exact HM).
@@ -573,23 +576,38 @@ Qed.
 
 Ltac otr := solve [ repeat (first [ eassumption | eapply ofr_trans; [eassumption|] ]) ].
 
-Lemma inner_loop_ok : forall n fuel w lc w' d,
-  Inv n w -> inner_loop fuel w lc = Ok (w', d) -> Inv n w' /\ ofr w w'.
+(* the end of the grapheme loop: the UAX #14 option is processed again and recorded when no line was found *)
+Lemma fallback_ok : forall n w wopt lc w' d,
+  Inv n w -> word_fallback w wopt lc = Ok (w', d) -> Inv n w' /\ ofr w w'.
 Proof.
-  intros n. induction fuel as [|fuel IH]; intros w lc w' d HI H; cbn [inner_loop] in H; [discriminate|].
+  intros n w wopt lc w' d HI H. unfold word_fallback in H.
+  destruct (negb (lc_truncating lc) && negb (has_best w)); [|inversion H; subst; split; [exact HI|apply ofr_refl]].
+  destruct (Inv_restore n w HI) as [I1 O1].
+  destruct (process_break_option (restore w) wopt lc) as [[[w3 r] cand]| | |] eqn:PB; cbn [bind] in H; try discriminate.
+  destruct (pbo_ok n _ _ _ _ _ _ I1 PB) as (I3 & F3 & C3). apply frame_ofr in F3.
+  assert (O3 : ofr w w3) by otr.
+  destruct r; inversion H; subst; try (destruct (Inv_restore n w3 I3) as [I4 O4]; split; auto; otr);
+    (destruct C3 as (e & C3 & _); [congruence|];
+     destruct (Inv_mark_best n w3 [cand] I3 (ex_intro _ e C3)) as [I4 O4]; split; auto; otr).
+Qed.
+
+Lemma inner_loop_ok : forall n fuel w wopt lc w' d,
+  Inv n w -> inner_loop fuel w wopt lc = Ok (w', d) -> Inv n w' /\ ofr w w'.
+Proof.
+  intros n. induction fuel as [|fuel IH]; intros w wopt lc w' d HI H; cbn [inner_loop] in H; [discriminate|].
   destruct (Inv_checkpoint n w HI) as [I1 O1].
   destruct (next_grapheme_break _ (w_br (checkpoint w))) as [[b1 ro]| | |] eqn:NG; cbn [bind fst snd] in H; try discriminate.
   destruct (next_grapheme_break_frame _ _ _ _ NG) as [Bn Ba].
   pose proof (Inv_set_br n _ b1 I1) as I2. pose proof (ofr_set_br (checkpoint w) b1 Bn Ba) as O2.
   assert (O12 : ofr w (set_br (checkpoint w) b1)) by otr.
   clear O1 O2. set (w2 := set_br (checkpoint w) b1) in *.
-  destruct ro as [opt|]; [|inversion H; subst; auto].
+  destruct ro as [opt|]; [|destruct (fallback_ok n _ _ _ _ _ I2 H) as [I5 O5]; split; auto; otr].
   destruct (process_break_option w2 opt lc) as [[[w3 r] cand]| | |] eqn:PB; cbn [bind] in H; try discriminate.
   destruct (pbo_ok n _ _ _ _ _ _ I2 PB) as (I3 & F3 & C3). apply frame_ofr in F3.
   assert (O3 : ofr w w3) by otr. clear F3 O12.
   destruct r.
   - (* BreakInvalid *) destruct (Inv_restore n w3 I3) as [I4 O4].
-    destruct (IH _ _ _ _ I4 H) as [I5 O5]. split; auto; otr.
+    destruct (IH _ _ _ _ _ I4 H) as [I5 O5]. split; auto; otr.
   - (* EndLine *) inversion H; subst. destruct C3 as (e & C3 & _); [congruence|].
     destruct (Inv_mark_best n w3 [cand] I3 (ex_intro _ e C3)) as [I4 O4]. split; auto; otr.
   - (* Truncated *) inversion H; subst. destruct (has_best w3); [split; auto|].
@@ -601,7 +619,7 @@ Proof.
   - (* Fits *) destruct C3 as (e & C3 & _); [congruence|].
     destruct (Inv_mark_best n w3 [cand] I3 (ex_intro _ e C3)) as [I4 O4].
     assert (I5 : Inv n (set_br (mark_best w3 [cand]) (mark_word_unused (w_br w3)))) by (apply Inv_set_br; auto).
-    destruct (IH _ _ _ _ I5 H) as [I6 O6]. split; auto.
+    destruct (IH _ _ _ _ _ I5 H) as [I6 O6]. split; auto.
     eapply ofr_trans; [exact O3|]. eapply ofr_trans; [exact O4|]. eapply ofr_trans; [|exact O6].
     destruct w3; unfold ofr; cbn; repeat split.
   - (* CannotFit *) destruct (lc_truncating lc); inversion H; subst; [split; auto|].
@@ -625,12 +643,14 @@ Proof.
   destruct (process_break_option w2 opt lc) as [[[w3 r] cand]| | |] eqn:PB; cbn [bind] in H; try discriminate.
   destruct (pbo_ok n _ _ _ _ _ _ I2 PB) as (I3 & F3 & C3). apply frame_ofr in F3.
   assert (O3 : ofr w w3) by otr. clear F3 O12.
-  assert (G : forall wx, Inv n wx -> ofr w wx -> inner_loop (br_fuel wx) (restore wx) lc = Ok (w', d) -> Inv n w' /\ ofr w w').
-  { intros wx Ix Ox Hx. destruct (Inv_restore n wx Ix) as [I4 O4]. destruct (inner_loop_ok n _ _ _ _ _ I4 Hx) as [I5 O5].
+  assert (G : forall wx, Inv n wx -> ofr w wx -> inner_loop (br_fuel wx) (restore wx) opt lc = Ok (w', d) -> Inv n w' /\ ofr w w').
+  { intros wx Ix Ox Hx. destruct (Inv_restore n wx Ix) as [I4 O4]. destruct (inner_loop_ok n _ _ _ _ _ _ I4 Hx) as [I5 O5].
     split; auto; otr. }
   destruct r.
-  - (* BreakInvalid *) destruct (Inv_restore n w3 I3) as [I4 O4].
-    destruct (IH _ _ _ _ I4 H) as [I5 O5]. split; auto; otr.
+  - (* BreakInvalid *) destruct (Inv_restore n w3 I3) as [I4 O4]. cbv zeta in H.
+    pose proof (Inv_set_br n _ (discard_word (w_br (restore w3))) I4) as I4'.
+    pose proof (ofr_set_br (restore w3) (discard_word (w_br (restore w3))) eq_refl eq_refl) as O4'.
+    destruct (IH _ _ _ _ I4' H) as [I5 O5]. split; auto; otr.
   - (* EndLine *) inversion H; subst. destruct C3 as (e & C3 & _); [congruence|].
     destruct (Inv_mark_best n w3 [cand] I3 (ex_intro _ e C3)) as [I4 O4]. split; auto; otr.
   - (* Truncated *)
